@@ -451,17 +451,37 @@ func (in *Interp) genericLoop(fr *frame, st *State, space *Term, _ []types.Objec
 
 // hoistAll lifts every ite that is not under a loop binder to the top, in
 // first-occurrence order, specialising each side under the assumption made.
-func hoistAll(t *Term) *Term {
-	for guard := 0; guard < 4096; guard++ {
-		c := firstIteCond(t)
-		if c == nil {
-			return t
+var tooLargeCount int
+
+// hoistAll returns the canonical decision-tree form; a term whose tree would
+// be too large becomes a leaf that is equal to nothing (never a silent match).
+func hoistAll(t *Term) (out *Term) {
+	budget := 20000
+	defer func() {
+		if e := recover(); e != nil {
+			if _, ok := e.(symErr); ok {
+				tooLargeCount++
+				out = leaf("toolarge", fmt.Sprint(tooLargeCount))
+				return
+			}
+			panic(e)
 		}
-		a := hoistAll(assume(t, c, true))
-		b := hoistAll(assume(t, c, false))
-		return T("ite", "", c, a, b)
+	}()
+	return hoistRec(t, &budget)
+}
+
+func hoistRec(t *Term, budget *int) *Term {
+	*budget--
+	if *budget < 0 {
+		panic(symErr{"decision tree too large to canonicalise", 0})
 	}
-	return t
+	c := firstIteCond(t)
+	if c == nil {
+		return t
+	}
+	a := hoistRec(assume(t, c, true), budget)
+	b := hoistRec(assume(t, c, false), budget)
+	return T("ite", "", c, a, b)
 }
 
 // firstIteCond finds the condition of the first ite in pre-order, skipping the
